@@ -35,7 +35,10 @@ def mp_rate(sp, rx, state, params):
         return v
     env = dict(params)
     env.update(state)
-    return ref.eval_tree(rx["tree"], env, 0.0, 1.0, mp=_mp)
+    return ref.eval_tree(rx["tree"], env, _T[0], 1.0, mp=_mp)
+
+
+_T = [0.0]      # the time at which the rate equations are differentiated (set per case)
 
 
 def mp_rhs(sp, state, params):
@@ -67,6 +70,9 @@ def check(case):
     from bioscrape.analysis import py_get_jacobian, py_get_sensitivity_to_parameter
     res = R()
     sp, method = case["spec"], case["method"]
+    tq = float(case.get("time", 0.0))
+    _T[0] = tq
+    tkw = {"time": tq} if tq != 0.0 else {}
     names = sp["species"]
     with specmod.quiet():
         M = specmod.to_model(sp)
@@ -92,11 +98,11 @@ def check(case):
     cancel = [2e-13 * sum(abs((S[s][j] + Sd[s][j]) * float(rates0[j])) for j in range(len(rates0))) / H for s in names]
     with specmod.quiet():
         if case["what"] == "jacobian":
-            J = np.asarray(py_get_jacobian(M, x, method=method), dtype=float)
-            J2 = np.asarray(py_get_jacobian(M, x, method=method), dtype=float)
+            J = np.asarray(py_get_jacobian(M, x, method=method, **tkw), dtype=float)
+            J2 = np.asarray(py_get_jacobian(M, x, method=method, **tkw), dtype=float)
         else:
-            J = np.asarray(py_get_sensitivity_to_parameter(M, x, case["param"], method=method), dtype=float)
-            J2 = np.asarray(py_get_sensitivity_to_parameter(M, x, case["param"], method=method), dtype=float)
+            J = np.asarray(py_get_sensitivity_to_parameter(M, x, case["param"], method=method, **tkw), dtype=float)
+            J2 = np.asarray(py_get_sensitivity_to_parameter(M, x, case["param"], method=method, **tkw), dtype=float)
     after = dict(M.get_parameter_dictionary())
     if any(before[k] != after.get(k) for k in before) or set(before) != set(after):
         ch = [k for k in before if before[k] != after.get(k)]
@@ -155,6 +161,8 @@ def check(case):
                 res.fail(("sensitivity_entry", method), d_species=si, parameter=p, got=float(J[ii]), expected=exact,
                          tolerance=tol, state=case["state"])
                 return res
+    if tq != 0.0:
+        res.label("at_nonzero_time")
     res.label("what:" + case["what"], "method:" + method, *["type:" + t for t in sorted({rx["type"] for rx in sp["reactions"]})])
     if any(rx.get("signed") for rx in sp["reactions"]):
         res.label("rate_that_changes_sign")
@@ -194,7 +202,7 @@ def cases(draw):
             rx["signed"] = True
         else:
             rx = gen.general(draw(st.lists(st.sampled_from(species), max_size=2)), prods,
-                             gen.positive_tree(b, species, smooth=True))
+                             gen.positive_tree(b, species, smooth=True, time=True))
         if draw(st.integers(0, 4)) == 0 and rx["p"]:
             rx["delay"] = {"type": "fixed", "r": [], "p": [rx["p"].pop()], "pd": {"delay": 1.0}}
         b.reactions.append(rx)
@@ -219,6 +227,7 @@ def cases(draw):
         used = sorted(sp["params"])
         case["param"] = draw(st.sampled_from(used))
     case["warmup"] = draw(st.sampled_from([None, None, "jacobian", "sensitivity"])) if sp["params"] else None
+    case["time"] = draw(st.sampled_from([0.0, 0.0, 0.75, 4.0]))     # the rate equations may depend on time explicitly
     return case
 
 
